@@ -106,8 +106,9 @@ def _observe_all(check, parser, mode, spec, tab, stats):
     timeouts: dict = {}
     for rule, text, k in spec.cases():
         if timeouts.get(rule, 0) >= 2 or _TIMEOUTS[0] >= 6:
-            # this start rule hangs in this mode: do not wait for the watchdog on every remaining input
-            t[(rule, text, k)] = ("timeout",)
+            # this start rule hangs in this mode (or the worker has seen enough hangs to settle the verdict):
+            # do not wait for the watchdog on every remaining input; the case is dropped from judgement
+            t[(rule, text, k)] = ("skipped",)
             continue
         try:
             with common.Watchdog(check.watchdog_s):
@@ -173,11 +174,18 @@ def _worker(rng):
                 _observe_all(check, go, "GO", spec, tabs[i], stats)
     # phase 3: model + judge
     for i, spec in enumerate(specs):
+        skipped = {key for t in tabs[i].values() for key, obs in t.items() if obs == ("skipped",)}
+        if skipped:
+            for t in tabs[i].values():
+                for key in skipped:
+                    t.pop(key, None)
         model_obs = None
         if check.need_model:
             model_obs = {}
             g = spec.model
             for rule, text, k in spec.cases():
+                if (rule, text, k) in skipped:
+                    continue
                 st = refpeg.Stats()
                 mo = refpeg.observe(g, rule, text, k, st)
                 model_obs[(rule, text, k)] = mo
